@@ -397,6 +397,13 @@ func (s *c07Streams) decTarget(ty string, v reflect.Value, variant int) reflect.
 		case 2: // preallocated with another length
 			p.Elem().Set(reflect.MakeSlice(T, v.Len()+1, v.Len()+1))
 		}
+		if ty == "sg1" || ty == "sg2" {
+			// the reused slice holds other points already (a decoder that only writes some coordinates shows)
+			g := s.g[strings.ToUpper(ty[1:])]
+			for i := 0; i < p.Elem().Len(); i++ {
+				p.Elem().Index(i).Set(g.pt("2G").Elem())
+			}
+		}
 	case "g1", "g2":
 		if variant%2 == 1 { // a receiver holding another point
 			g := s.g[strings.ToUpper(ty)]
@@ -543,6 +550,27 @@ func c07RunStreams(out string, c *Curve, seed uint64, tier string) int {
 			wire := s.encodeProgram(t, prog, raw, 0, pi)
 			ch := c07Chunks[(pi+map[bool]int{false: 0, true: 3}[raw])%len(c07Chunks)]
 			s.decodeProgram(t, prog, Ev{"k": "enc"}, wire, ch, pi%4 != 3, pi, len(prog))
+		}
+	}
+	// (A') slices with infinities between other points, decoded into fresh / same-length / other-length destinations that
+	// already hold points (the decoder reuses a destination of the right length)
+	for _, gn := range groups {
+		ty := "s" + strings.ToLower(gn)
+		g := s.g[gn]
+		for _, labels := range [][]string{{"G", "O", "2G", "O", "-G"}, {"O"}, {"O", "O", "G"}} {
+			sl := reflect.MakeSlice(c.c07Type(ty), len(labels), len(labels))
+			for i, lb := range labels {
+				sl.Index(i).Set(g.pt(lb).Elem())
+			}
+			prog := []c07Item{{ty, sl}}
+			for _, raw := range []bool{false, true} {
+				wire := s.encodeProgram(t, prog, raw, 0, 0)
+				for variant := 0; variant < 3; variant++ {
+					for _, sg := range []bool{true, false} {
+						s.decodeProgram(t, prog, Ev{"k": "enc"}, wire, c07Chunks[variant], sg, variant, 1)
+					}
+				}
+			}
 		}
 	}
 	total += t.Close()
